@@ -4,6 +4,7 @@ Spec: Refs.tla - a monitor over the occurrence table recorded from the real anal
 (iv) the same set from every listed occurrence, (v) highlight = refs restricted to the current file.
 MON: TLC evaluates the monitor on every recorded table (generated programs, the corpus, broken variants).
 GEN: for GleamGen programs refs[d] is additionally compared with the specification's own {o : target(o) = d}.
+A tenth of the generated workspaces has two files that map to the same module name (src/ and test/ directory of a package).
 Workspaces have two local packages (the first file in `app`, the others - the library modules m2 and sub/m2 - in `lib`,
 which `app` depends on), one in four a single package; the occurrence table covers every file, so references asked from
 a library declaration must list the uses in the dependent package and vice versa."""
@@ -46,6 +47,17 @@ def workspaces(out, tier, seed):
         r = rnd.random()
         ws.append({"files": [["m1", broken(text_of(c), rnd)], ["m2", broken(LIB, rnd) if r < 0.2 else LIB], ["sub/m2", broken(SUB, rnd) if r > 0.8 else SUB]],
                    "label": "broken"})
+    # two files of one package that map to the same module name (src/m1.gleam and test/m1.gleam; also of the library module m2):
+    # Gleam rejects the duplicate, the editor workspace can be in that state - every file is still queried and its answers
+    # must still be each other's inverse
+    n_twin = 60 if tier == "quick" else 600
+    tw = main.sample(rnd, 2 * n_twin)
+    for k in range(len(tw) // 2):
+        c1, c2 = tw[2 * k], tw[2 * k + 1]
+        files = [["m1", text_of(c1)], ["m2", LIB], ["sub/m2", SUB], ["@twin/m1", text_of(c1 if k % 2 == 0 else c2)]]
+        if k % 3 == 0:
+            files.append(["@twin/m2", LIB])
+        ws.append({"files": files, "label": "twin"})
     # corpus: small files whole; the big stdlib file cut into item-aligned chunks (whole for thorough)
     for f in sorted(glob.glob(os.path.join(vlib.VERIF, "corpus", "**", "*.gleam"), recursive=True)):
         t = open(f, encoding="utf-8").read()
